@@ -96,3 +96,24 @@ func VHDevTicker() {
 	time.Sleep(time.Millisecond)
 	vCover("ticker done")
 }
+
+type devBox struct {
+	mu sync.Mutex
+	n  int
+}
+
+func (b devBox) get() int { b.mu.Lock(); defer b.mu.Unlock(); return b.n }
+
+func VHDevMutexCopy() {
+	var b devBox
+	b.mu.Lock()
+	done := false
+	vGo(func() { _ = b.get(); done = true }) // copies a locked mutex: the copy is locked for good
+	vWait()
+	vAssert(!done, "a copy of a locked mutex stays locked")
+	b.mu.Unlock()
+	c := b // copy of an unlocked mutex works
+	c.mu.Lock()
+	c.mu.Unlock()
+	vCover("mutex copy done")
+}
